@@ -107,6 +107,10 @@ func init() {
 					})
 				}
 			}
+			// histories that start from NewUrl()
+			famNewUrlHist(c, defaultCfg, 6000*c.Scale, "new-url-histories")
+			famNewUrlHist(c, cfgFromDesc("specialAdd"), 1500*c.Scale, "new-url-histories:specialAdd")
+			famNewUrlHist(c, cfgFromDesc("fail"), 1500*c.Scale, "new-url-histories:fail")
 			// parse / resolve
 			c.Pool.Run(30000*c.Scale, func(d *Driver, i int) {
 				r := rng.Fork(100000 + i)
